@@ -29,6 +29,8 @@ impl<T: FileStore> RecvTransaction<T> {
         &&& self.timer.ack@.max == o.timer.ack@.max && self.timer.inactivity@.max == o.timer.inactivity@.max
         &&& (o.timer.ack@.count == o.timer.ack@.max ==> self.timer.ack@.count == self.timer.ack@.max)
         &&& (o.timer.inactivity@.count == o.timer.inactivity@.max ==> self.timer.inactivity@.count == self.timer.inactivity@.max)
+        &&& self.timer.nak@.max == o.timer.nak@.max
+        &&& (o.timer.nak@.count == o.timer.nak@.max ==> self.timer.nak@.count == self.timer.nak@.max)
     }
 
     /// the inactivity counter is as it was, or has been frozen (pause only counts pending expirations and stops)
@@ -245,4 +247,34 @@ impl<T: FileStore> RecvTransaction<T> {
         &&& gaps_exact(self.saved_segments.0@, requests_of(self.naks@, self.metadata.is_none()), 0, nak_window_end(self.file_size, self.saved_segments.0@))
         &&& (self.metadata.is_none() ==> self.naks@.len() > 0 && self.naks@[0] == (SegmentRequestForm { start_offset: 0, end_offset: 0 }))
     }
+}
+
+pub open spec fn fss_len(f: FileSizeFlag) -> u16 {
+    match f { FileSizeFlag::Small => 4, FileSizeFlag::Large => 8 }
+}
+
+/// a NAK PDU with k segment requests (start and end of scope + k pairs, each offset f octets) is at most L octets long
+pub open spec fn nak_fits(k: int, f: int, L: int) -> bool {
+    (k + 1) * 2 * f <= L
+}
+
+pub open spec fn max_of_cfg(c: TransactionConfig) -> int {
+    (c.file_size_segment as int - 2 * fss_len(c.file_size_flag)) / (2 * fss_len(c.file_size_flag) as int)
+}
+
+/// stands for `deque.drain(..n).collect()` (iterator adapter outside Verus' subset): takes the first n elements off the queue
+#[verifier::external_body]
+pub fn vx_drain_front(q: &mut VecDeque<SegmentRequestForm>, n: usize) -> (r: Vec<SegmentRequestForm>)
+    requires n <= old(q)@.len(),
+    ensures r@ == old(q)@.take(n as int), final(q)@ == old(q)@.skip(n as int),
+{
+    unimplemented!()
+}
+
+// `usize::min(a, b)` is the provided method Ord::min (no assume_specification possible): wrapper, declared rewrite
+#[verifier::external_body]
+pub fn usize_min(a: usize, b: usize) -> (r: usize)
+    ensures r == (if a <= b { a } else { b }),
+{
+    unimplemented!()
 }
